@@ -17,3 +17,11 @@ mod ts_config;
 
 pub use file_system_state::FileSystemState;
 pub use generate_artifacts::get_artifact_path_and_content;
+
+/// Visibility-only hooks for /verif (contract verification harnesses and replay).
+#[cfg(isographlabs_isograph_verif)]
+pub mod verif_hooks {
+    pub fn api_sort_field_name(field_1: &str, field_2: &str) -> std::cmp::Ordering {
+        crate::iso_overload_file::verif_sort_field_name(field_1, field_2)
+    }
+}
